@@ -58,6 +58,13 @@ for _d, _e in (('forward', 1), ('inverse', -1)):
     for _h in (0, 1):
         HALF['hansenlaw-%s-hold%d' % (_d, _h)] = (
             "lambda X, dr: abel.hansenlaw.hansenlaw_transform(X, dr=dr, direction=%r, hold_order=%d)" % (_d, _h), _e)
+# direct on an explicit mesh r= (on-axis grid k*dr and half-pixel grid (k+1/2)*dr): the dr clause = scaling law of the mesh
+for _d, _e in (('forward', 1), ('inverse', -1)):
+    for _c in (True, False):
+        for _gn, _off in (('onaxis', '0.0'), ('halfpixel', '0.5')):
+            HALF['direct-%s-correction=%r-mesh-%s' % (_d, _c, _gn)] = (
+                "lambda X, dr: abel.direct.direct_transform(X, r=(np.arange(np.shape(X)[-1]) + %s) * dr, direction=%r, "
+                "correction=%r, backend='python')" % (_off, _d, _c), _e)
 for _rn, _r in (('diff', "('diff', 1.5)"), ('L2', "('L2', 0.8)"), ('L2c', "('L2c', 0.8)"), ('num', '2.5')):
     HALF['daun-inverse-deg1-%s' % _rn] = (
         "lambda X, dr: abel.daun.daun_transform(X, reg=%s, degree=1, dr=dr, direction='inverse', basis_dir=None, verbose=False)" % _r, -1)
@@ -122,7 +129,7 @@ def half_check(f, clause, n, rows, dr, seed, a, b, expo, nonneg, TOL):
         fresh()
         r1 = raw(X, dr); r2 = raw(X, dr); r3 = raw(Y, dr); r4 = raw(X, 1.0); r5 = raw(X, dr)
         TY = T(Y)
-        d = max(dev(r1, s * TX), dev(r2, s * TX), dev(r3, s * TY), dev(r4, TX), dev(r5, s * TX)) / (mx * max(s, 1.0))
+        d = max(dev(r1, s * TX) / s, dev(r2, s * TX) / s, dev(r3, s * TY) / s, dev(r4, TX), dev(r5, s * TX) / s) / mx
     elif clause == 'scale':
         d = 0.0
         for k in (-40, -20, 20, 40):
@@ -143,6 +150,15 @@ def half_check(f, clause, n, rows, dr, seed, a, b, expo, nonneg, TOL):
         if not nonneg:
             fresh(); tl = A2(f(2 * Xi - 3 * Yi, 1.0))
             d = max(d, dev(tl, 2 * tf - 3 * T(Yi.astype(float))) / (5 * mx))
+        for dt in (np.uint8, np.uint16, np.int16):           # raw camera frames: values near the extremes of the type
+            top = np.iinfo(dt).max
+            Xe = (top - np.abs(np.rint(X))).astype(dt)
+            if np.iinfo(dt).min < 0 and not nonneg: Xe[::2] = -Xe[::2]
+            te = T(Xe.astype(float))
+            try:
+                fresh(); d = max(d, dev(A2(f(Xe.copy(), 1.0)), te) / float(top))
+            except (TypeError, ValueError):
+                pass
     return d, tol, norm
 '''
 
@@ -252,6 +268,21 @@ FULL['Distributions-origin-weights'] = ("lambda IM: vmi.Distributions((IM.shape[
                                         "weights=1.0 + (np.arange(IM.size).reshape(IM.shape) % 3)).image(IM).cos()")
 FULL['Distributions-nearest'] = "lambda IM: vmi.Distributions('cc', 'MIN', 2, method='nearest').image(IM).cos()"
 
+for _o in ('same', 'fold', 'unfold', 'full', 'full-unique'):
+    FULL['rbasex-out=%s' % _o] = "lambda IM: abel.rbasex.rbasex_transform(IM, order=2, out=%r)[0]" % _o
+FULL['rbasex-forward-out=fold-odd'] = "lambda IM: abel.rbasex.rbasex_transform(IM, direction='forward', order=1, odd=True, out='fold')[0]"
+FULL['rbasex-distr-harmonics'] = "lambda IM: abel.rbasex.rbasex_transform(IM, order=2, out=None)[1].harmonics()"
+FULL['Distributions-rcos'] = "lambda IM: vmi.Distributions('cc', 'MIN', 2).image(IM).rcos()[1:]"
+FULL['Distributions-rcossin-lowerleft'] = "lambda IM: vmi.Distributions('ll', 'MIN', 2).image(IM).rcossin()[1:]"
+FULL['Distributions-folding-origin-rmax'] = ("lambda IM: vmi.Distributions((IM.shape[0]//2 + 2, IM.shape[1]//2 - 2), 'all', 2)"
+                                             ".image(IM).cos()")
+FULL['Distributions-order0-midrow'] = "lambda IM: vmi.Distributions('cl', 'MIN', 0).image(IM).cos()"
+FULL['vmi-harmonics'] = "lambda IM: vmi.harmonics(IM, 'cc', 'MIN', 4)"
+FULL['vmi-rharmonics-odd'] = "lambda IM: vmi.rharmonics(IM, 'cc', 'MIN', 3, odd=True)[1:]"
+FULL['radial_intensity-default-origin'] = "lambda IM: vmi.radial_intensity('int3D', IM)[1]"
+FULL['angular_integration_2D-origin'] = "lambda IM: vmi.angular_integration_2D(IM, origin=(IM.shape[0]//2 + 1, IM.shape[1]//2), dr=2, dt=0.05)[1]"
+FULL['average_radial_intensity_3D'] = "lambda IM: vmi.average_radial_intensity_3D(IM)[1]"
+
 NONNEG_FULL = {
     'rbasex-pos-image': "lambda IM: abel.rbasex.rbasex_transform(IM, order=2, reg='pos')[0]",
     'rbasex-pos-distr': "lambda IM: abel.rbasex.rbasex_transform(IM, order=2, reg='pos')[1].cos()",
@@ -275,6 +306,15 @@ if clause == 'dtype':
         print('the integer-typed image is refused loudly: acceptable'); sys.exit(0)
     fresh(); tl = np.asarray(f(2 * Xi - 3 * Yi), dtype=float)
     d = max(dev(ti, tf), dev(tl, 2 * tf - 3 * tg)); scale = 2 * float(np.max(np.abs(tf))) + 3 * float(np.max(np.abs(tg)))
+    for dt in (np.uint8, np.uint16, np.int16):
+        top = np.iinfo(dt).max
+        Xe = (top - np.abs(np.rint(X))).astype(dt)
+        if np.iinfo(dt).min < 0: Xe[::2] = -Xe[::2]
+        te = T(Xe.astype(float))
+        try:
+            fresh(); de = dev(np.asarray(f(Xe.copy()), dtype=float), te) * scale / max(float(np.max(np.abs(te))), 1e-300)
+            print('  %%s frame: deviation from the float result (rescaled) %%.3e' %% (dt.__name__, de)); d = max(d, de)
+        except (TypeError, ValueError): pass
     print('%%s %%dx%%d integer image: deviation from the float result / from linearity %%.3e, scale %%.3e' %% (name, size, size, d, scale))
     sys.exit(0 if d <= rtol * scale else 1)
     TX = T(X); d = dev(T(a * X), a * TX); scale = a * float(np.max(np.abs(TX)))
@@ -394,11 +434,11 @@ def search(ctx, rng, enlarged):
     if ctx.quick and not enlarged:
         sizes = [5, 12, 33]
         full_sizes = [15]
-        drs = [0.25, 2.5]
+        drs = [0.25, 2.5, 1e-6, 1e-12]
     else:
         sizes = [5, 8, 12, 21, 33, 64, 101]
         full_sizes = [11, 15, 21]
-        drs = [0.25, 2.5, 0.7]
+        drs = [0.25, 2.5, 0.7, 1e3, 1e-3, 1e-6, 1e-9, 1e-12]
 
     def fresh():
         ac.cleanup()
@@ -525,6 +565,18 @@ def search(ctx, rng, enlarged):
                                 di = max(dev(ti, tf), dev(tl, 2 * tf - 3 * tg))
                             except (TypeError, ValueError):
                                 di = 0.0       # refused loudly: acceptable
+                            for dt in (np.uint8, np.uint16, np.int16):     # raw frames near the extremes of the type
+                                top = np.iinfo(dt).max
+                                Xe = (top - np.abs(np.rint(X))).astype(dt)
+                                if np.iinfo(dt).min < 0:
+                                    Xe[::2] = -Xe[::2]
+                                te = TF(Xe)
+                                try:
+                                    fresh()
+                                    de = dev(np.asarray(f(Xe.copy()), dtype=float), te) * si / max(float(np.max(np.abs(te))), 1e-300)
+                                    di = max(di, de)
+                                except (TypeError, ValueError):
+                                    pass
                         except Exception as ex:    # noqa
                             di, si = float('inf'), 1.0
                         n_eval += 1
